@@ -2,11 +2,26 @@
 runner and harness with C03, compares the complete error records)."""
 from props.c03 import *   # noqa: F401,F403
 import props.c03 as _c03
+import re
 
 ID = "C07"
 PROJECTION = "C07: complete error records (required_len, len, len_source, layer, layer_start_offset; content value)"
 RULE = (_c03.RULE + "; for C07 a case is non-trivial when it is rejected behind the first header (offset > 0 or a content error of an inner layer)"
         "; second comparison: the LenError of IpHeaders::read (LimitedReader) on every bare-IP case against the reference decoder's error")
+
+
+def _true_need(data, layer, off, avail, sreq):
+    """the largest number of bytes the layer can truthfully be said to require: the reference decoder's number, or -
+    when the bytes that carry the header's own length are available - the complete header"""
+    need = sreq
+    if layer == "Ipv4Header" and avail >= 1 and off < len(data):
+        need = max(need, (data[off] & 15) * 4)
+    if avail >= 2 and off + 1 < len(data):
+        if layer == "Ipv6ExtHeader":
+            need = max(need, (data[off + 1] + 1) * 8)
+        elif layer == "IpAuthHeader":
+            need = max(need, (data[off + 1] + 2) * 4)
+    return need
 
 
 def read_errors_compare(ctx, cases, model_lines):
@@ -52,13 +67,7 @@ def read_errors_compare(ctx, cases, model_lines):
         # name fewer bytes than the whole header needs - still 'a number of bytes the layer really requires'
         # (len < required <= what the header needs)
         # or, having read them, the complete header where the slice decoder stops at the 8 byte minimum
-        need = int(s[0])
-        off = int(s[4])
-        if int(s[1]) >= 2 and off + 1 < len(data):
-            if s[3] == "Ipv6ExtHeader":
-                need = max(need, (data[off + 1] + 1) * 8)
-            elif s[3] == "IpAuthHeader":
-                need = max(need, (data[off + 1] + 2) * 4)
+        need = _true_need(data, s[3], int(s[4]), int(s[1]), int(s[0]))
         req_ok = i[0] == s[0] or (int(i[1]) < int(i[0]) <= need)
         if not req_ok or (i[1], i[3], i[4]) != (s[1], s[3], s[4]):
             orc.append((k, "IpHeaders::read: length error %s but the real fault is %s" % (il, sl), None))
@@ -67,9 +76,102 @@ def read_errors_compare(ctx, cases, model_lines):
     return orc, {"read_runs": len(idx), "read_len_errors_compared": n_len}
 
 
+_STOP = re.compile(r"stop=(\w+):(len [^\]]*?)\]")
+
+
+def _lax_stop(part):
+    m = _STOP.search(part)
+    return (m.group(1), m.group(2).split(" ", 1)[1].split(",")) if m else None
+
+
+def lax_struct_errors_compare(ctx, cases, model_lines=None):
+    """Third comparison: the length stop errors of LaxPacketHeaders (struct family, lax) against those of
+    LaxSlicedPacket on the same bytes (harness bin c04 prints both as H=.. / S=..).  The lax slicing records are the
+    lax reference decoder's by C05's theorem and C05's own run; struct decoding walks the same bytes up to the point
+    where it stops, so a length stop error it reports must be the slicing one: same stop layer, required_len, len,
+    layer, offset, and a length source that is the slicing one or `slice`."""
+    idx = [i for i, c in enumerate(cases) if c.split()[0] != "sll" and len(c.split()) > 1 and c.split()[1] != "-"]
+    if not idx:
+        return [], {}
+    ok, out, exe = vlib.harness_build("c04", "debug")
+    if not ok:
+        return [(0, "c04 harness build failed: " + out[-400:], None)], {}
+    sub = [cases[i] for i in idx]
+    r = vlib.run_sharded([exe], sub, "C07lh_i")
+    orc = []
+    n = 0
+    nh = 0
+    for k, il in zip(idx, r):
+        # PacketHeaders (strict struct family): its length error against the reference decoder's on the same bytes
+        hp0 = il.split(" || ")[0]
+        sl0 = model_lines[k].split(" | ")[1] if (model_lines is not None and " | " in model_lines[k]) else None
+        if hp0.startswith("err len") and sl0 is not None:
+            nh += 1
+            data = bytes.fromhex(cases[k].split()[1])
+            f = _c03._err_fields(hp0)
+            o0 = _c03.oracle(hp0, sl0, True)
+            if o0 is None:
+                pass
+            elif o0[1] is not None:
+                orc.append((k, "PacketHeaders: " + o0[0], o0[1]))
+            elif sl0.startswith("err len"):
+                g = _c03._err_fields(sl0)
+                need = _true_need(data, g[3], int(g[4]), int(g[1]), int(g[0]))
+                req_ok = f[0] == g[0] or (int(f[1]) < int(f[0]) <= need)
+                if not req_ok or (f[1], f[3], f[4]) != (g[1], g[3], g[4]):
+                    orc.append((k, "PacketHeaders: length error %s but the real fault is %s" % (hp0, sl0), None))
+                elif f[2] != g[2] and f[2] != "slice":
+                    orc.append((k, "PacketHeaders: len_source %s reported, but the limit of %s bytes comes from %s" % (f[2], f[1], g[2]), None))
+            elif sl0.startswith("err content") and f[3] in ("Ipv4Header", "Ipv6Header", "IpHeader"):
+                # first IP header cut short and also unacceptable (F11 family: which of the two is reported
+                # depends on the entry point): judge the record against the bytes
+                off, ln, req = int(f[4]), int(f[1]), int(f[0])
+                floor = {"Ipv4Header": 20, "Ipv6Header": 40, "IpHeader": 1}[f[3]]
+                if not (f[2] == "slice" and ln <= len(data) - off and ln < req <= max(floor, _true_need(data, f[3], off, ln, floor))):
+                    orc.append((k, "PacketHeaders: length error %s does not describe the bytes (wire format: %s)" % (hp0, sl0), None))
+            else:
+                orc.append((k, "PacketHeaders reports '%s' but the wire format prescribes '%s'" % (hp0, sl0), None))
+        if " lax H=" not in il:
+            continue
+        lax = il.split(" lax H=", 1)[1]
+        hp, _, sp = lax.partition(" S=")
+        h, sl = _lax_stop(hp), _lax_stop(sp)
+        if h is None:
+            continue
+        n += 1
+        data = bytes.fromhex(cases[k].split()[1])
+        if sl is None:
+            # lax slicing rejects the same first IP header for its content (it looks at the IHL / version before the
+            # length, F11 family): judge the struct family's record directly against the bytes
+            hf = h[1]
+            off, ln, req = int(hf[4]), int(hf[1]), int(hf[0])
+            floor = {"Ipv4Header": 20, "Ipv6Header": 40, "IpHeader": 1}.get(hf[3])
+            avail = len(data) - off
+            pw = re.search(r"pl=ether\([^)]*?(\d+)\+(\d+)\)", sp)
+            if pw and int(pw.group(1)) == off:
+                avail = int(pw.group(2))   # the ether payload window lax slicing hands out (MACsec short length)
+            if (h[0] == "IpHeader" and floor is not None and hf[2] == "slice" and ln == avail
+                    and ln < req <= max(floor, _true_need(data, hf[3], off, ln, floor))):
+                continue
+            orc.append((k, "LaxPacketHeaders stops with a length error %s,%s that lax slicing of the same bytes does not have (%s)" % (h[0], ",".join(h[1]), sp[:200]), None))
+            continue
+        hl, hf = h
+        ll, lf = sl
+        need = _true_need(data, lf[3], int(lf[4]), int(lf[1]), int(lf[0]))
+        req_ok = hf[0] == lf[0] or (int(hf[1]) < int(hf[0]) <= need)
+        if not req_ok or (hl, hf[1], hf[3], hf[4]) != (ll, lf[1], lf[3], lf[4]):
+            orc.append((k, "LaxPacketHeaders stop error %s:%s but the real fault is %s:%s" % (hl, ",".join(hf), ll, ",".join(lf)), None))
+        elif hf[2] != lf[2] and hf[2] != "slice":
+            orc.append((k, "LaxPacketHeaders stop error: len_source %s reported, but the limit of %s bytes comes from %s" % (hf[2], hf[1], lf[2]), None))
+    return orc, {"lax_struct_runs": len(idx), "lax_struct_len_stop_errors_compared": n, "packet_headers_len_errors_compared": nh}
+
+
 def compare(ctx, cases, impl, model_lines):
     res = _c03.compare(ctx, cases, impl, model_lines, full_errors=True)
     orc, extra = read_errors_compare(ctx, cases, model_lines)
     res["oracle_fail"].extend(orc)
     res.setdefault("extra", {}).update(extra)
+    orc, extra = lax_struct_errors_compare(ctx, cases, model_lines)
+    res["oracle_fail"].extend(orc)
+    res["extra"].update(extra)
     return res
